@@ -36,7 +36,8 @@ from ._ext.numerics import _embed_time_series, _manhattan_distance_matrix_rp, \
     _diagline_dist_sequential_missingvalues, _diagline_dist_sequential, \
     _vertline_dist_missingvalues, _vertline_dist, \
     _vertline_dist_sequential_missingvalues, _vertline_dist_sequential, \
-    _rejection_sampling, _white_vertline_dist, _twins_r, _twin_surrogates_r
+    _rejection_sampling, _white_vertline_dist, _twins_r, _twin_surrogates_r, \
+    _white_vertline_dist_missingvalues
 
 
 class RecurrencePlot(Cached):
@@ -1319,7 +1320,12 @@ class RecurrencePlot(Cached):
         R = self.recurrence_matrix()
         n_time = self.N
         white_vertline = np.zeros(n_time, dtype=NODE)
-        _white_vertline_dist(n_time, white_vertline, R)
+        if self.missing_values:
+            #  do not count white lines touching missing samples
+            _white_vertline_dist_missingvalues(
+                n_time, white_vertline, R, self.missing_value_indices)
+        else:
+            _white_vertline_dist(n_time, white_vertline, R)
 
         #  Function covers the whole recurrence matrix
         return white_vertline
